@@ -7,7 +7,7 @@ from checks import views
 
 KINDS = ["assign_array", "assign_rotview", "assign_padview", "assign_constview", "assign_other", "assign_range", "assign_il", "fill",
          "std_fill_elements", "elements_assign", "swap", "assign_moved_view", "assign_rvalue_rotview", "assign_innerT",
-         "assign_rvalue_innerT", "swap_same_layout", "assign_interleaved"]
+         "assign_rvalue_innerT", "swap_same_layout", "assign_interleaved", "assign_rdest_array", "assign_rdest_rotview", "assign_rdest_rvalue_rotview"]
 # kinds re-run with an element type whose moves are observable (a moved-from element reads -2): a view is a reference-like
 # handle, so assigning from an rvalue VIEW must still copy and leave the source elements as they were
 TRK_KINDS = ["assign_array", "assign_rotview", "assign_constview", "elements_assign", "assign_rvalue_rotview", "assign_innerT",
@@ -38,9 +38,13 @@ def run(tier):
     # four-dimensional roots under every composition of up to three dimension permutations
     perm4 = consts(4, 2, 3, ["assign_array", "assign_rotview", "assign_constview", "elements_assign", "assign_rvalue_rotview", "assign_interleaved", "fill", "swap"])
     perm4["OpNames"] = {"rotated", "unrotated", "transposed"}
+    # rows, columns and strided lines of 5 to 7 elements (longer than any unrolling factor), source and destination of other strides
+    longrows = consts(2, 7, 2, ["assign_array", "assign_rotview", "assign_rvalue_rotview", "assign_rdest_array", "assign_rdest_rotview",
+                                "assign_rdest_rvalue_rotview", "assign_interleaved", "elements_assign", "swap"])
+    longrows["OpNames"] = {"index", "rotated", "strided", "reversed", "front"}
     plan = [("c05_d3", consts(3, 2, 2, KINDS), exe), ("c05_d2", consts(2, 3, 2, KINDS), exe),
             ("c05_move_from", consts(3, 2, 1, ["move_from"]), exe_trk), ("c05_trk", consts(3, 2, 1, TRK_KINDS), exe_trk),
-            ("c05_d4_perm", perm4, exe)]
+            ("c05_d4_perm", perm4, exe), ("c05_long_rows", longrows, exe)]
     if tier == "thorough":
         plan += [("c05_d3_e3", consts(3, 3, 2, KINDS), exe), ("c05_d4", consts(4, 2, 2, KINDS), exe),
                  ("c05_move_from2", consts(3, 2, 2, ["move_from"]), exe_trk), ("c05_trk2", consts(3, 2, 2, TRK_KINDS), exe_trk)]
